@@ -664,6 +664,12 @@ def c07(tier, seed):
         body = [draw(g("Int64"), "x"), draw(g("SliceOfN", elem=g("Byte"), minLen=0, maxLen=4), "s")]
         out.append(scenario("c07-mkearly-%d" % sd, {"body": body}, {"checks": 10, "seed": sd, "nofailfile": "true"}, entry="makecheck_early",
                             runs=[{}, {"expect": "same_run"}, {"entry": "check", "expect": "same_run"}], name="TestMkEarly", tag={"template": "passing", "entry": "makecheck_early"}))
+    # (d') ... whatever other regular expressions the first process has used before (case-sensitive namesakes of case-insensitive classes)
+    for sd in seeds(rng, 3 if tier == "quick" else 30):
+        body = [draw(g("StringMatching", expr="(?i)[0-9]{2}-[a-f]{3}\\d"), "r"), draw(g("SliceOfBytesMatching", expr="(?i)id\\d+[a-f]"), "rb"), draw(g("Int16"), "t", "t"),
+                iff("t", "ge", 3000, [op("fatalf", site=1)])]
+        out.append(scenario("c07-proc-classes-%d" % sd, {"body": body}, {"checks": 100, "seed": sd, "nofailfile": "true", "shrinktime": "0s"},
+                            runs=[{"warm": ["classes"]}, {"expect": "same_run", "freshProc": True}], tag={"template": "regexp-ci-class", "freshProc": True}))
     # (d) the same fixed seed in a new process: identical run
     for sd in seeds(rng, max(3, n // 2)):
         tn = rng.choice(sorted(TEMPLATES))
@@ -1138,6 +1144,8 @@ def c04_bodies():
         "makemap": [draw(g("Make", type="map"), "mm"), draw(g("Int8"), "t")],
         "makestruct": [draw(g("Make", type="struct"), "ms"), draw(g("Make", type="ptr"), "mp")],
         "regexp": [draw(g("StringMatching", expr="[a-c]{2,4}x?|\\d+"), "r"), draw(g("SliceOfBytesMatching", expr="(?i)ab*c"), "rb")],
+        # case-insensitive character classes that print like case-sensitive ones used elsewhere in the process ([0-9], \d, [A-Fa-f])
+        "regexp_ci_class": [draw(g("StringMatching", expr="(?i)[0-9]{2}-[a-f]{3}\\d"), "r"), draw(g("SliceOfBytesMatching", expr="(?i)id\\d+[a-f]"), "rb"), draw(g("Int8"), "t")],
         "regexp_retry": [draw(g("StringMatching", expr="[a-c]\\b[ab -]"), "r"), draw(g("SliceOfBytesMatching", expr="^x?\\bfo[o ]\\b|[a-z]$"), "rb"), draw(g("Int8"), "t")],
         "sm2": [op("repeat", actions={"left": [draw(g("Bool"), "b")], "right": [draw(g("Byte"), "c")]}), draw(g("Int8"), "after")],
         "custom_hard": t_custom_hard()[:-1],
@@ -1172,6 +1180,8 @@ def c04(tier, seed):
             runs = [{}, {"entry": "fuzz", "fuzzFrom": ["recorded", "pruned"]},
                     {"warm": rng.sample(["strings", "labels", "check", "failcheck"], 2)},   # same seed again after unrelated activity
                     {"freshProc": True}]                                                    # ... and in a new process
+            if bn == "regexp_ci_class":   # the process has used the case-sensitive namesakes of its classes before (the new process has not)
+                runs[0] = {"warm": ["classes"]}
             out.append(scenario("c04-%s-%d-%d" % (bn, sd, len(out)), {"body": body}, fl, runs=runs, tag={"body": bn, "rel": rel}))
     return out
 
